@@ -134,7 +134,7 @@ def run(ctx, report: Report) -> None:
     report.trusted_base = ['re._parser.parse', 'ast']
 
     # ---- R1 ---------------------------------------------------------------------------------------------------
-    r1 = report.rule('C02-R1', 'interval beliefs about the nth candidate index agree', floor=2)
+    r1 = report.rule('C02-R1', 'interval beliefs about the nth candidate index agree', floor=1)
     mod, fn0 = src.func('css_match.CSSMatch.match_nth')
     # the index search lives in match_nth or in helper functions it calls: every function of css_match that compares one
     # variable with a bound in two or more while-loop tests is examined on its own
@@ -320,7 +320,7 @@ def run(ctx, report: Report) -> None:
     nth_bounded_table(ctx, r1)
 
     # ---- R5 (the whole pipeline by interpretation, bounded) --------------------------------------------------------------
-    r5 = report.rule('C02-R5', 'An+B through the whole pipeline equals the formula (bounded)', floor=2)
+    r5 = report.rule('C02-R5', 'An+B through the whole pipeline equals the formula (bounded)', floor=1)
     from .e2ematch import nth_formula_table
     nth_formula_table(ctx, r5)
 
